@@ -1,0 +1,765 @@
+//! Verification seams. Compiled only with `--cfg nervusdb_verif`; never part of a
+//! normal build.
+//!
+//! A simulator installs a [`SimHooks`] object for the current thread. Every
+//! facade below falls through to the real operation when no object is
+//! installed, so a guard-ON build without a simulator behaves like the shipped
+//! code.
+//!
+//! Seams:
+//! * `fs`    – `File` / `OpenOptions` / `rename` / `remove_file` / `copy` /
+//!             `create_dir_all` wrappers that announce every *mutating* file
+//!             operation before it happens (fault injection, journaling,
+//!             scheduler yield point). Reads are not intercepted.
+//! * `sync`  – `Mutex` / `RwLock` / `AtomicU64` wrappers that yield to the
+//!             simulator before every acquisition / atomic access and park the
+//!             thread in the simulator when the lock is contended.
+//! * clock   – `now_unix_nanos`, `Instant`.
+//! * rng     – `rng_f64`.
+//! * owner   – `owner_scope(tag)`: which structure is writing pages.
+
+use std::cell::RefCell;
+use std::io;
+use std::path::Path;
+use std::sync::Arc;
+
+/// One mutating file-system operation, announced before it is performed.
+#[derive(Debug)]
+pub enum IoOp<'a> {
+    /// A new, empty file appears at `path` (`create`/`create_new` on a missing path).
+    Create { path: &'a Path },
+    Write {
+        file: u64,
+        path: &'a Path,
+        offset: u64,
+        data: &'a [u8],
+    },
+    SetLen { file: u64, path: &'a Path, len: u64 },
+    Sync { file: u64, path: &'a Path },
+    Rename { from: &'a Path, to: &'a Path },
+    Remove { path: &'a Path },
+    Mkdir { path: &'a Path },
+}
+
+#[derive(Debug, Clone, Copy, PartialEq, Eq)]
+pub enum IoVerdict {
+    /// Perform the operation.
+    Proceed,
+    /// Do nothing and return this error.
+    Fail(io::ErrorKind),
+    /// (Writes only) write the first `n` bytes, then return the error.
+    Partial(usize, io::ErrorKind),
+}
+
+#[derive(Debug, Clone, Copy, PartialEq, Eq)]
+pub enum SyncKind {
+    MutexLock,
+    RwRead,
+    RwWrite,
+    AtomicLoad,
+    AtomicStore,
+    AtomicRmw,
+}
+
+pub trait SimHooks: Send + Sync {
+    /// A file handle was opened on `path`; returns the id used in later `IoOp`s.
+    fn file_opened(&self, _path: &Path) -> u64 {
+        0
+    }
+    fn io(&self, _op: &IoOp<'_>) -> IoVerdict {
+        IoVerdict::Proceed
+    }
+    /// Called before a lock acquisition attempt or an atomic access.
+    fn sync_point(&self, _kind: SyncKind, _addr: usize, _name: &'static str) {}
+    /// `try_lock` failed. Returns when retrying is worthwhile.
+    fn lock_blocked(&self, _kind: SyncKind, _addr: usize, _name: &'static str) {
+        std::thread::yield_now();
+    }
+    fn lock_acquired(&self, _kind: SyncKind, _addr: usize, _name: &'static str) {}
+    fn lock_released(&self, _kind: SyncKind, _addr: usize, _name: &'static str) {}
+    /// Wall clock (nanoseconds since the Unix epoch); `None` = use the real clock.
+    fn now_unix_nanos(&self) -> Option<i64> {
+        None
+    }
+    /// Monotonic clock in nanoseconds; `None` = use the real clock.
+    fn instant_nanos(&self) -> Option<u64> {
+        None
+    }
+    /// Uniform f64 in [0,1); `None` = use the real generator.
+    fn rng_f64(&self) -> Option<f64> {
+        None
+    }
+    /// A page is written / allocated / freed under the current owner tag.
+    fn page_event(&self, _ev: PageEvent, _page: u64, _owner: &'static str) {}
+}
+
+#[derive(Debug, Clone, Copy, PartialEq, Eq)]
+pub enum PageEvent {
+    Allocate,
+    Claim,
+    Write,
+    Free,
+}
+
+thread_local! {
+    static HOOKS: RefCell<Option<Arc<dyn SimHooks>>> = const { RefCell::new(None) };
+    static OWNER: RefCell<Vec<&'static str>> = const { RefCell::new(Vec::new()) };
+}
+
+/// Install (or remove) the simulator for the current thread.
+pub fn install(h: Option<Arc<dyn SimHooks>>) -> Option<Arc<dyn SimHooks>> {
+    HOOKS.with(|c| std::mem::replace(&mut *c.borrow_mut(), h))
+}
+
+pub fn current() -> Option<Arc<dyn SimHooks>> {
+    HOOKS.with(|c| c.borrow().clone())
+}
+
+#[inline]
+pub fn active() -> bool {
+    HOOKS.with(|c| c.borrow().is_some())
+}
+
+pub fn now_unix_nanos() -> Option<i64> {
+    current().and_then(|h| h.now_unix_nanos())
+}
+
+pub fn rng_f64() -> Option<f64> {
+    current().and_then(|h| h.rng_f64())
+}
+
+/// RAII owner tag for page writes/allocations.
+pub struct OwnerScope(());
+
+pub fn owner_scope(tag: &'static str) -> OwnerScope {
+    OWNER.with(|o| o.borrow_mut().push(tag));
+    OwnerScope(())
+}
+
+impl Drop for OwnerScope {
+    fn drop(&mut self) {
+        OWNER.with(|o| {
+            o.borrow_mut().pop();
+        });
+    }
+}
+
+pub fn current_owner() -> &'static str {
+    OWNER.with(|o| o.borrow().last().copied().unwrap_or("?"))
+}
+
+pub fn page_event(ev: PageEvent, page: u64) {
+    if let Some(h) = current() {
+        h.page_event(ev, page, current_owner());
+    }
+}
+
+/// Monotonic instant that reads the simulated clock when one is installed.
+#[derive(Debug, Clone, Copy)]
+pub enum Instant {
+    Real(std::time::Instant),
+    Sim(u64),
+}
+
+impl Instant {
+    pub fn now() -> Self {
+        match current().and_then(|h| h.instant_nanos()) {
+            Some(n) => Instant::Sim(n),
+            None => Instant::Real(std::time::Instant::now()),
+        }
+    }
+
+    pub fn elapsed(&self) -> std::time::Duration {
+        match self {
+            Instant::Real(i) => i.elapsed(),
+            Instant::Sim(start) => {
+                let now = current()
+                    .and_then(|h| h.instant_nanos())
+                    .unwrap_or(*start);
+                std::time::Duration::from_nanos(now.saturating_sub(*start))
+            }
+        }
+    }
+}
+
+pub mod fs {
+    use super::{IoOp, IoVerdict, current};
+    use std::io::{self, Read, Seek, SeekFrom, Write};
+    use std::path::{Path, PathBuf};
+
+    fn verdict(op: &IoOp<'_>) -> IoVerdict {
+        match current() {
+            Some(h) => h.io(op),
+            None => IoVerdict::Proceed,
+        }
+    }
+
+    fn fail(kind: io::ErrorKind) -> io::Error {
+        io::Error::new(kind, "injected i/o fault")
+    }
+
+    #[derive(Debug)]
+    pub struct File {
+        inner: std::fs::File,
+        path: PathBuf,
+        id: u64,
+        append: bool,
+    }
+
+    #[derive(Debug, Clone)]
+    pub struct OpenOptions {
+        inner: std::fs::OpenOptions,
+        create: bool,
+        create_new: bool,
+        truncate: bool,
+        append: bool,
+    }
+
+    impl Default for OpenOptions {
+        fn default() -> Self {
+            Self::new()
+        }
+    }
+
+    impl OpenOptions {
+        pub fn new() -> Self {
+            Self {
+                inner: std::fs::OpenOptions::new(),
+                create: false,
+                create_new: false,
+                truncate: false,
+                append: false,
+            }
+        }
+        pub fn read(&mut self, v: bool) -> &mut Self {
+            self.inner.read(v);
+            self
+        }
+        pub fn write(&mut self, v: bool) -> &mut Self {
+            self.inner.write(v);
+            self
+        }
+        pub fn append(&mut self, v: bool) -> &mut Self {
+            self.inner.append(v);
+            self.append = v;
+            self
+        }
+        pub fn create(&mut self, v: bool) -> &mut Self {
+            self.inner.create(v);
+            self.create = v;
+            self
+        }
+        pub fn create_new(&mut self, v: bool) -> &mut Self {
+            self.inner.create_new(v);
+            self.create_new = v;
+            self
+        }
+        pub fn truncate(&mut self, v: bool) -> &mut Self {
+            self.inner.truncate(v);
+            self.truncate = v;
+            self
+        }
+        pub fn open(&self, path: impl AsRef<Path>) -> io::Result<File> {
+            let path = path.as_ref();
+            let existed = path.exists();
+            if !existed && (self.create || self.create_new) {
+                match verdict(&IoOp::Create { path }) {
+                    IoVerdict::Proceed => {}
+                    IoVerdict::Fail(k) | IoVerdict::Partial(_, k) => return Err(fail(k)),
+                }
+            }
+            let inner = if existed && self.truncate && !self.create_new {
+                // Announce truncation as an explicit set_len(0) on the opened file.
+                let mut o = self.inner.clone();
+                o.truncate(false);
+                let f = o.open(path)?;
+                let file = File::wrap(f, path, self.append);
+                file.set_len(0)?;
+                return Ok(file);
+            } else {
+                self.inner.open(path)?
+            };
+            Ok(File::wrap(inner, path, self.append))
+        }
+    }
+
+    impl File {
+        fn wrap(inner: std::fs::File, path: &Path, append: bool) -> Self {
+            let id = match current() {
+                Some(h) => h.file_opened(path),
+                None => 0,
+            };
+            Self {
+                inner,
+                path: path.to_path_buf(),
+                id,
+                append,
+            }
+        }
+
+        pub fn open(path: impl AsRef<Path>) -> io::Result<File> {
+            OpenOptions::new().read(true).open(path)
+        }
+
+        pub fn create(path: impl AsRef<Path>) -> io::Result<File> {
+            OpenOptions::new()
+                .write(true)
+                .create(true)
+                .truncate(true)
+                .open(path)
+        }
+
+        pub fn metadata(&self) -> io::Result<std::fs::Metadata> {
+            self.inner.metadata()
+        }
+
+        pub fn set_len(&self, len: u64) -> io::Result<()> {
+            match verdict(&IoOp::SetLen {
+                file: self.id,
+                path: &self.path,
+                len,
+            }) {
+                IoVerdict::Proceed => self.inner.set_len(len),
+                IoVerdict::Fail(k) | IoVerdict::Partial(_, k) => Err(fail(k)),
+            }
+        }
+
+        pub fn sync_data(&self) -> io::Result<()> {
+            match verdict(&IoOp::Sync {
+                file: self.id,
+                path: &self.path,
+            }) {
+                // Durability is simulated; files live on tmpfs.
+                IoVerdict::Proceed => {
+                    if super::active() {
+                        Ok(())
+                    } else {
+                        self.inner.sync_data()
+                    }
+                }
+                IoVerdict::Fail(k) | IoVerdict::Partial(_, k) => Err(fail(k)),
+            }
+        }
+
+        pub fn sync_all(&self) -> io::Result<()> {
+            self.sync_data()
+        }
+
+        fn hooked_write_at(&self, buf: &[u8], offset: u64) -> io::Result<usize> {
+            use std::os::unix::fs::FileExt as _;
+            match verdict(&IoOp::Write {
+                file: self.id,
+                path: &self.path,
+                offset,
+                data: buf,
+            }) {
+                IoVerdict::Proceed => {
+                    self.inner.write_all_at(buf, offset)?;
+                    Ok(buf.len())
+                }
+                IoVerdict::Fail(k) => Err(fail(k)),
+                IoVerdict::Partial(n, k) => {
+                    let n = n.min(buf.len());
+                    self.inner.write_all_at(&buf[..n], offset)?;
+                    Err(fail(k))
+                }
+            }
+        }
+
+        /// Positional read (same name as `std::os::unix::fs::FileExt::read_at`).
+        pub fn read_at(&self, buf: &mut [u8], offset: u64) -> io::Result<usize> {
+            use std::os::unix::fs::FileExt as _;
+            self.inner.read_at(buf, offset)
+        }
+
+        /// Positional write; one call is one simulated I/O step.
+        pub fn write_at(&self, buf: &[u8], offset: u64) -> io::Result<usize> {
+            self.hooked_write_at(buf, offset)
+        }
+    }
+
+    impl Read for File {
+        fn read(&mut self, buf: &mut [u8]) -> io::Result<usize> {
+            self.inner.read(buf)
+        }
+    }
+
+    impl Seek for File {
+        fn seek(&mut self, pos: SeekFrom) -> io::Result<u64> {
+            self.inner.seek(pos)
+        }
+    }
+
+    impl Write for File {
+        fn write(&mut self, buf: &[u8]) -> io::Result<usize> {
+            if buf.is_empty() {
+                return Ok(0);
+            }
+            let offset = if self.append {
+                self.inner.metadata()?.len()
+            } else {
+                self.inner.stream_position()?
+            };
+            let r = self.hooked_write_at(buf, offset);
+            // keep the cursor where a normal write would have left it
+            let written = match &r {
+                Ok(n) => *n as u64,
+                Err(_) => 0,
+            };
+            if !self.append {
+                self.inner.seek(SeekFrom::Start(offset + written))?;
+            }
+            r
+        }
+
+        fn flush(&mut self) -> io::Result<()> {
+            Ok(())
+        }
+    }
+
+    pub fn rename(from: impl AsRef<Path>, to: impl AsRef<Path>) -> io::Result<()> {
+        let (from, to) = (from.as_ref(), to.as_ref());
+        match verdict(&IoOp::Rename { from, to }) {
+            IoVerdict::Proceed => std::fs::rename(from, to),
+            IoVerdict::Fail(k) | IoVerdict::Partial(_, k) => Err(fail(k)),
+        }
+    }
+
+    pub fn remove_file(path: impl AsRef<Path>) -> io::Result<()> {
+        let path = path.as_ref();
+        match verdict(&IoOp::Remove { path }) {
+            IoVerdict::Proceed => std::fs::remove_file(path),
+            IoVerdict::Fail(k) | IoVerdict::Partial(_, k) => Err(fail(k)),
+        }
+    }
+
+    pub fn create_dir_all(path: impl AsRef<Path>) -> io::Result<()> {
+        let path = path.as_ref();
+        if path.is_dir() {
+            return Ok(());
+        }
+        match verdict(&IoOp::Mkdir { path }) {
+            IoVerdict::Proceed => std::fs::create_dir_all(path),
+            IoVerdict::Fail(k) | IoVerdict::Partial(_, k) => Err(fail(k)),
+        }
+    }
+
+    /// `std::fs::copy` decomposed into hooked create + writes.
+    pub fn copy(from: impl AsRef<Path>, to: impl AsRef<Path>) -> io::Result<u64> {
+        let mut src = File::open(from)?;
+        let mut dst = File::create(to)?;
+        io::copy(&mut src, &mut dst)
+    }
+
+    pub use std::fs::{Metadata, metadata, read_dir};
+}
+
+/// `use nervusdb_api::verif::std_shim as std;` inside a block redirects
+/// `std::fs::rename(..)`-style expression paths to the hooked versions.
+pub mod std_shim {
+    pub use ::std::*;
+    pub mod fs {
+        pub use super::super::fs::*;
+    }
+}
+
+/// `use nervusdb_api::verif::chrono_shim as chrono;` inside a block redirects
+/// `chrono::Utc::now().timestamp_nanos_opt()` to the simulated wall clock.
+pub mod chrono_shim {
+    pub struct Utc;
+    pub struct Now(Option<i64>);
+    impl Utc {
+        pub fn now() -> Now {
+            Now(super::now_unix_nanos())
+        }
+    }
+    impl Now {
+        pub fn timestamp_nanos_opt(&self) -> Option<i64> {
+            match self.0 {
+                Some(n) => Some(n),
+                None => {
+                    let d = ::std::time::SystemTime::now()
+                        .duration_since(::std::time::UNIX_EPOCH)
+                        .ok()?;
+                    i64::try_from(d.as_nanos()).ok()
+                }
+            }
+        }
+    }
+}
+
+pub mod sync {
+    use super::{SyncKind, current};
+    use std::ops::{Deref, DerefMut};
+    use std::sync::{LockResult, PoisonError, TryLockError};
+
+    pub use std::sync::Arc;
+
+    fn addr_of<T: ?Sized>(p: &T) -> usize {
+        p as *const T as *const u8 as usize
+    }
+
+    #[derive(Debug, Default)]
+    pub struct Mutex<T: ?Sized> {
+        inner: std::sync::Mutex<T>,
+    }
+
+    pub struct MutexGuard<'a, T: ?Sized> {
+        inner: Option<std::sync::MutexGuard<'a, T>>,
+        addr: usize,
+    }
+
+    impl<T> Mutex<T> {
+        pub const fn new(v: T) -> Self {
+            Self {
+                inner: std::sync::Mutex::new(v),
+            }
+        }
+        pub fn into_inner(self) -> LockResult<T> {
+            self.inner.into_inner()
+        }
+    }
+
+    impl<T: ?Sized> Mutex<T> {
+        pub fn lock(&self) -> LockResult<MutexGuard<'_, T>> {
+            let addr = addr_of(&self.inner);
+            let Some(h) = current() else {
+                return match self.inner.lock() {
+                    Ok(g) => Ok(MutexGuard {
+                        inner: Some(g),
+                        addr: 0,
+                    }),
+                    Err(p) => Err(PoisonError::new(MutexGuard {
+                        inner: Some(p.into_inner()),
+                        addr: 0,
+                    })),
+                };
+            };
+            let name = std::any::type_name::<T>();
+            loop {
+                h.sync_point(SyncKind::MutexLock, addr, name);
+                match self.inner.try_lock() {
+                    Ok(g) => {
+                        h.lock_acquired(SyncKind::MutexLock, addr, name);
+                        return Ok(MutexGuard {
+                            inner: Some(g),
+                            addr,
+                        });
+                    }
+                    Err(TryLockError::Poisoned(p)) => {
+                        h.lock_acquired(SyncKind::MutexLock, addr, name);
+                        return Err(PoisonError::new(MutexGuard {
+                            inner: Some(p.into_inner()),
+                            addr,
+                        }));
+                    }
+                    Err(TryLockError::WouldBlock) => {
+                        h.lock_blocked(SyncKind::MutexLock, addr, name);
+                    }
+                }
+            }
+        }
+    }
+
+    impl<T: ?Sized> Deref for MutexGuard<'_, T> {
+        type Target = T;
+        fn deref(&self) -> &T {
+            self.inner.as_ref().unwrap()
+        }
+    }
+    impl<T: ?Sized> DerefMut for MutexGuard<'_, T> {
+        fn deref_mut(&mut self) -> &mut T {
+            self.inner.as_mut().unwrap()
+        }
+    }
+    impl<T: ?Sized> Drop for MutexGuard<'_, T> {
+        fn drop(&mut self) {
+            drop(self.inner.take());
+            if self.addr != 0
+                && let Some(h) = current()
+            {
+                h.lock_released(SyncKind::MutexLock, self.addr, "");
+            }
+        }
+    }
+    impl<T: ?Sized + std::fmt::Debug> std::fmt::Debug for MutexGuard<'_, T> {
+        fn fmt(&self, f: &mut std::fmt::Formatter<'_>) -> std::fmt::Result {
+            (**self).fmt(f)
+        }
+    }
+
+    #[derive(Debug, Default)]
+    pub struct RwLock<T: ?Sized> {
+        inner: std::sync::RwLock<T>,
+    }
+
+    pub struct RwLockReadGuard<'a, T: ?Sized> {
+        inner: Option<std::sync::RwLockReadGuard<'a, T>>,
+        addr: usize,
+    }
+    pub struct RwLockWriteGuard<'a, T: ?Sized> {
+        inner: Option<std::sync::RwLockWriteGuard<'a, T>>,
+        addr: usize,
+    }
+
+    impl<T> RwLock<T> {
+        pub const fn new(v: T) -> Self {
+            Self {
+                inner: std::sync::RwLock::new(v),
+            }
+        }
+    }
+
+    impl<T: ?Sized> RwLock<T> {
+        pub fn read(&self) -> LockResult<RwLockReadGuard<'_, T>> {
+            let addr = addr_of(&self.inner);
+            let Some(h) = current() else {
+                return match self.inner.read() {
+                    Ok(g) => Ok(RwLockReadGuard {
+                        inner: Some(g),
+                        addr: 0,
+                    }),
+                    Err(p) => Err(PoisonError::new(RwLockReadGuard {
+                        inner: Some(p.into_inner()),
+                        addr: 0,
+                    })),
+                };
+            };
+            let name = std::any::type_name::<T>();
+            loop {
+                h.sync_point(SyncKind::RwRead, addr, name);
+                match self.inner.try_read() {
+                    Ok(g) => {
+                        h.lock_acquired(SyncKind::RwRead, addr, name);
+                        return Ok(RwLockReadGuard {
+                            inner: Some(g),
+                            addr,
+                        });
+                    }
+                    Err(TryLockError::Poisoned(p)) => {
+                        h.lock_acquired(SyncKind::RwRead, addr, name);
+                        return Err(PoisonError::new(RwLockReadGuard {
+                            inner: Some(p.into_inner()),
+                            addr,
+                        }));
+                    }
+                    Err(TryLockError::WouldBlock) => {
+                        h.lock_blocked(SyncKind::RwRead, addr, name);
+                    }
+                }
+            }
+        }
+
+        pub fn write(&self) -> LockResult<RwLockWriteGuard<'_, T>> {
+            let addr = addr_of(&self.inner);
+            let Some(h) = current() else {
+                return match self.inner.write() {
+                    Ok(g) => Ok(RwLockWriteGuard {
+                        inner: Some(g),
+                        addr: 0,
+                    }),
+                    Err(p) => Err(PoisonError::new(RwLockWriteGuard {
+                        inner: Some(p.into_inner()),
+                        addr: 0,
+                    })),
+                };
+            };
+            let name = std::any::type_name::<T>();
+            loop {
+                h.sync_point(SyncKind::RwWrite, addr, name);
+                match self.inner.try_write() {
+                    Ok(g) => {
+                        h.lock_acquired(SyncKind::RwWrite, addr, name);
+                        return Ok(RwLockWriteGuard {
+                            inner: Some(g),
+                            addr,
+                        });
+                    }
+                    Err(TryLockError::Poisoned(p)) => {
+                        h.lock_acquired(SyncKind::RwWrite, addr, name);
+                        return Err(PoisonError::new(RwLockWriteGuard {
+                            inner: Some(p.into_inner()),
+                            addr,
+                        }));
+                    }
+                    Err(TryLockError::WouldBlock) => {
+                        h.lock_blocked(SyncKind::RwWrite, addr, name);
+                    }
+                }
+            }
+        }
+    }
+
+    impl<T: ?Sized> Deref for RwLockReadGuard<'_, T> {
+        type Target = T;
+        fn deref(&self) -> &T {
+            self.inner.as_ref().unwrap()
+        }
+    }
+    impl<T: ?Sized> Drop for RwLockReadGuard<'_, T> {
+        fn drop(&mut self) {
+            drop(self.inner.take());
+            if self.addr != 0
+                && let Some(h) = current()
+            {
+                h.lock_released(SyncKind::RwRead, self.addr, "");
+            }
+        }
+    }
+    impl<T: ?Sized> Deref for RwLockWriteGuard<'_, T> {
+        type Target = T;
+        fn deref(&self) -> &T {
+            self.inner.as_ref().unwrap()
+        }
+    }
+    impl<T: ?Sized> DerefMut for RwLockWriteGuard<'_, T> {
+        fn deref_mut(&mut self) -> &mut T {
+            self.inner.as_mut().unwrap()
+        }
+    }
+    impl<T: ?Sized> Drop for RwLockWriteGuard<'_, T> {
+        fn drop(&mut self) {
+            drop(self.inner.take());
+            if self.addr != 0
+                && let Some(h) = current()
+            {
+                h.lock_released(SyncKind::RwWrite, self.addr, "");
+            }
+        }
+    }
+
+    pub mod atomic {
+        use super::super::{SyncKind, current};
+        pub use std::sync::atomic::Ordering;
+
+        #[derive(Debug, Default)]
+        pub struct AtomicU64 {
+            inner: std::sync::atomic::AtomicU64,
+        }
+
+        impl AtomicU64 {
+            pub const fn new(v: u64) -> Self {
+                Self {
+                    inner: std::sync::atomic::AtomicU64::new(v),
+                }
+            }
+            fn point(&self, kind: SyncKind) {
+                if let Some(h) = current() {
+                    h.sync_point(kind, &self.inner as *const _ as usize, "AtomicU64");
+                }
+            }
+            pub fn load(&self, o: Ordering) -> u64 {
+                self.point(SyncKind::AtomicLoad);
+                self.inner.load(o)
+            }
+            pub fn store(&self, v: u64, o: Ordering) {
+                self.point(SyncKind::AtomicStore);
+                self.inner.store(v, o)
+            }
+            pub fn fetch_add(&self, v: u64, o: Ordering) -> u64 {
+                self.point(SyncKind::AtomicRmw);
+                self.inner.fetch_add(v, o)
+            }
+        }
+    }
+}
